@@ -5597,7 +5597,11 @@ class CodegenCtx:
             else:
                 # if buffer is not freed, ensure strings are made empty
                 if action.into_storage.holds_a(OutputStorageType.STR) and action.into_storage.str_null:
-                    result.add(f"state->c.{action.into_storage.name}[0] = 0;")
+                    if self._needs_on_demand_alloc(action.into_storage) and self._is_dynamic(action.into_storage):
+                        # nothing may have been allocated yet
+                        result.add(f"if (state->c.{action.into_storage.name}) state->c.{action.into_storage.name}[0] = 0;")
+                    else:
+                        result.add(f"state->c.{action.into_storage.name}[0] = 0;")
 
             result.add(f"state->{action.into_storage.name}_counter = 0;");
         elif isinstance(action, (AppendTo, AppendCharTo)):
